@@ -9,7 +9,7 @@ E1_NOTE = ("Bounded: capacities 1-3 (thorough 1-4), key universe capacity+1..2, 
            "(cross-checked by a merge-free sweep and canon-on-replay), slot-relabelling symmetry of the vector-backed caches, the reference model "
            "(validated by silence on the repaired tree and by the seeded-change catalogue).")
 TXT = {
- "C01": "Exhaustive explicit-state search of the real containers (all ten, both thread_safe modes, identity and all-collide hashing, several load factors): from every reachable concrete state every single/range operation is executed on the real code and every value any lookup returns - plus a peek scan of the whole key universe - must carry the write id of that key's latest successful write and the key must not have been undone. Fixpoint per configuration = all histories of that configuration, which is what 'for every finite sequence' needs and unit tests cannot give. Plus a configuration sweep (capacity 1..40/100 x load-factor grid x fill/overflow/erase/refill scripts), an equal-values configuration, and one sanitizer pass.",
+ "C01": "Exhaustive explicit-state search of the real containers (all ten, both thread_safe modes, identity and all-collide hashing, several load factors): from every reachable concrete state every single/range operation is executed on the real code and every value any lookup returns - plus a peek scan of the whole key universe - must carry the write id of that key's latest successful write and the key must not have been undone. Fixpoint per configuration = all histories of that configuration, which is what 'for every finite sequence' needs and unit tests cannot give. Plus a configuration sweep (capacity 1..40/100 x load-factor grid x fill/overflow/erase/refill scripts) and an equal-values configuration.",
  "C02": "Same exhaustive search; after every transition size()/empty()/capacity() are compared with the peek scan and the model's set of expired-not-yet-removed keys (lower and upper bound for tlru/utlru, equality elsewhere); also on the capacity x load-factor sweep.",
  "C03": "Same exhaustive search; the set of live keys lost by each transition (scan before minus scan after at one clock reading) must be empty, or exactly the erased key, or exactly one victim of an insert of a new key into a full cache whose residents are all live.",
  "C04": "Exhaustive search over the four TTL containers with a link-time virtual clock stepped onto, just before and 1 ns around every model deadline; every lookup form and the scan must never return a key whose model deadline (latest successful write + TTL in force) is <= now. Plus concurrent 'clocked' programs (two writers + a clock-tick thread, all schedules): no key served at or after the deadline the implementation recorded for it.",
